@@ -332,3 +332,376 @@ def oracle_transform(mon, pre, data, channels, fxn, def_channels, out):
     meta_equal_except_range(mon, pre, out, 'transform')
     limits_follow_events(mon, pre, out, pos, 'transform')
     input_unchanged(mon, pre, data, 'transform')
+
+
+# ------------------------------------------------------------------------------
+# C08 / C05: gates
+# ------------------------------------------------------------------------------
+
+def _attach_gates(self):
+    G = self.F.gate
+    self.rebind(G, 'start_end', lambda orig: _wrap_gate(self, orig, oracle_start_end))
+    self.rebind(G, 'high_low', lambda orig: _wrap_gate(self, orig, oracle_high_low))
+    self.rebind(G, 'ellipse', lambda orig: _wrap_gate(self, orig, oracle_ellipse))
+    self.rebind(G, 'density2d', lambda orig: _wrap_gate(self, orig, oracle_density2d))
+
+
+Monitors.attach_gates = _attach_gates
+
+
+def _wrap_gate(mon, orig, oracle):
+    import inspect
+    sig = inspect.signature(orig)
+
+    def gate(*a, **k):
+        try:
+            ba = sig.bind(*a, **k)
+            ba.apply_defaults()
+            args = dict(ba.arguments)
+            pre = snapshot(args['data']) if isinstance(args.get('data'), np.ndarray) else None
+        except Exception:   # noqa  (bad call: let the real function produce its own error)
+            pre = None
+        out = orig(*a, **k)
+        if pre is not None:
+            try:
+                oracle(mon, pre, args, out)
+            except Exception as e:   # noqa
+                mon.ctx.note('oracle-error %s: %s' % (orig.__name__, core.exc_str(e)))
+                mon.ctx.counters['oracle_errors'] += 1
+        return out
+    return gate
+
+
+def gated_equals_masked(mon, pre, data, gated, mask, mech):
+    """gated output == input restricted to mask (values, order, metadata)."""
+    exp = pre.raw[mask]
+    g = np.asarray(gated)
+    ok = g.shape == exp.shape and g.dtype == exp.dtype and g.tobytes() == exp.tobytes()
+    mon.chk(ok, mech + ':gated-not-data[mask]', got_shape=list(g.shape), want_shape=list(exp.shape))
+    if pre.sample:
+        ok = is_sample(gated)
+        if ok:
+            m = zoo.meta(gated)
+            bad = [k for k in m if not _eq(m[k], pre.meta[k])]
+            ok = not bad
+        mon.chk(ok, mech + ':gated-metadata-changed')
+    else:
+        mon.chk(type(gated) is type(data), mech + ':gated-type-changed', got=type(gated).__name__)
+    input_unchanged(mon, pre, data, mech)
+
+
+def split_out(out, full):
+    if full:
+        return out.gated_data, np.asarray(out.mask)
+    return out, None
+
+
+def oracle_start_end(mon, pre, args, out):
+    data = args['data']
+    N = pre.shape[0]
+    ns, ne = max(args['num_start'], 0), max(args['num_end'], 0)
+    gated, mask = split_out(out, args['full_output'])
+    mon.chk(ns + ne <= N, 'start_end:unsatisfiable-accepted', N=N, num_start=args['num_start'], num_end=args['num_end'])
+    i = np.arange(N)
+    exp = (i >= ns) & (i < N - ne)
+    if mask is not None:
+        mon.chk(mask.dtype == bool and np.array_equal(mask, exp), 'start_end:mask', N=N,
+                num_start=args['num_start'], num_end=args['num_end'], kept=int(mask.sum()), want=int(exp.sum()))
+    gated_equals_masked(mon, pre, data, gated, exp, 'start_end')
+
+
+def oracle_high_low(mon, pre, args, out):
+    data = args['data']
+    if data.ndim != 2:
+        mon.ctx.note('high_low on non-2D input (not judged)')
+        return
+    D = pre.shape[1]
+    ch = args['channels']
+    if ch is None:
+        pos = list(range(D))
+    else:
+        pos, _ = norm_channels(data, ch)
+    X = pre.raw[:, pos]
+
+    def thr(v, side):
+        if v is None:
+            if pre.sample:
+                return np.array([(-np.inf if side == 0 else np.inf) if pre.meta['range'][p] is None
+                                 else pre.meta['range'][p][side] for p in pos], dtype=float)
+            return np.full(len(pos), -np.inf if side == 0 else np.inf)
+        return np.broadcast_to(np.asarray(v, dtype=float), (len(pos),))
+    lo, hi = thr(args['low'], 0), thr(args['high'], 1)
+    exp = np.ones(pre.shape[0], dtype=bool)
+    for j in range(len(pos)):
+        col = X[:, j]
+        exp &= (col > lo[j]) & (col < hi[j])
+    gated, mask = split_out(out, args['full_output'])
+    if mask is not None:
+        mon.chk(mask.dtype == bool and np.array_equal(mask, exp), 'high_low:mask', channels=repr(ch),
+                low=repr(args['low']), high=repr(args['high']), n_diff=int(np.sum(mask != exp)) if mask.shape == exp.shape else -1)
+    gated_equals_masked(mon, pre, data, gated, exp, 'high_low')
+
+
+def ellipse_q(X, center, a, b, theta, log):
+    """quadratic form in extended precision; nan where no log image."""
+    L = np.longdouble
+    X = X.astype(L)
+    if log:
+        with np.errstate(all='ignore'):
+            X = np.where(X > 0, np.log10(np.where(X > 0, X, 1)), np.nan)
+    dx = X[:, 0] - L(center[0])
+    dy = X[:, 1] - L(center[1])
+    c, s = np.cos(L(theta)), np.sin(L(theta))
+    xr = c * dx + s * dy
+    yr = -s * dx + c * dy
+    return (xr / L(a)) ** 2 + (yr / L(b)) ** 2
+
+
+def oracle_ellipse(mon, pre, args, out):
+    data = args['data']
+    pos, _ = norm_channels(data, args['channels'])
+    X = pre.f64[:, pos]
+    q = ellipse_q(X, args['center'], args['a'], args['b'], args['theta'], args['log'])
+    eps = 1e-9
+    inside = q < 1 - eps
+    outside = ~(q <= 1 + eps)        # includes nan (no log image)
+    band = ~(inside | outside)
+    if args['theta'] == 0 and not args['log']:
+        # the four axis vertices are exactly on the ellipse with no rounding anywhere (all operations exact):
+        # "inside or on" => they must be kept
+        dx = X[:, 0] - float(args['center'][0])
+        dy = X[:, 1] - float(args['center'][1])
+        exact_in = (X[:, 0] - dx == float(args['center'][0])) & (X[:, 1] - dy == float(args['center'][1]))
+        vertex = exact_in & (((dy == 0) & (np.abs(dx) == args['a'])) | ((dx == 0) & (np.abs(dy) == args['b'])))
+        inside = inside | vertex
+        band = band & ~vertex
+        mon.ctx.counters['ellipse_exact_vertex_events'] += int(vertex.sum())
+    mon.ctx.counters['ellipse_boundary_events'] += int(band.sum())
+    gated, mask = split_out(out, args['full_output'])
+    if mask is not None:
+        bad = (mask & outside) | (~mask & inside)
+        mon.chk(mask.dtype == bool and mask.shape == inside.shape and not bad.any(), 'ellipse:mask',
+                n_bad=int(bad.sum()), q_bad=[float(x) for x in q[bad][:3]] if bad.any() else None,
+                center=repr(args['center']), a=args['a'], b=args['b'], theta=args['theta'], log=args['log'])
+        gated_equals_masked(mon, pre, data, gated, mask, 'ellipse')
+        # contour traces the same ellipse
+        cn = out.contour
+        ok = isinstance(cn, list) and len(cn) == 1
+        if ok:
+            C = np.asarray(cn[0], dtype=float)
+            qc = ellipse_q(C, args['center'], args['a'], args['b'], args['theta'], args['log'])
+            ok = bool(np.all(np.abs(qc - 1) < 1e-8))
+            # full turn: angles of the contour points in the ellipse frame sweep 2*pi
+            L = np.longdouble
+            Cx = np.log10(C) if args['log'] else C
+            dx, dy = Cx[:, 0] - args['center'][0], Cx[:, 1] - args['center'][1]
+            c, s = math.cos(args['theta']), math.sin(args['theta'])
+            ang = np.unwrap(np.arctan2((-s * dx + c * dy) / args['b'], (c * dx + s * dy) / args['a']))
+            sweep = abs(ang[-1] - ang[0])
+            ok = ok and abs(sweep - 2 * np.pi) < 1e-6 and np.all(np.diff(ang) > 0) | np.all(np.diff(ang) < 0)
+        mon.chk(bool(ok), 'ellipse:contour', theta=args['theta'], log=args['log'])
+    elif not band.any():
+        gated_equals_masked(mon, pre, data, gated, inside, 'ellipse')
+
+
+def bin_index(v, edges):
+    idx = np.searchsorted(edges, v, side='right') - 1
+    idx = np.where(v == edges[-1], len(edges) - 2, idx)
+    ing = (v >= edges[0]) & (v <= edges[-1])
+    return idx, ing
+
+
+def oracle_density2d(mon, pre, args, out):
+    import fractions
+    import scipy.ndimage
+    data = args['data']
+    if not args['full_output']:
+        mon.ctx.counters['density2d_short_form_calls'] += 1
+        return
+    pos, _ = norm_channels(data, args['channels'])
+    X = pre.f64[:, pos]
+    if not np.all(np.isfinite(X)):
+        mon.ctx.note('density2d on non-finite data (not judged)')
+        return
+    mask = np.asarray(out.mask)
+    xe, ye = [np.asarray(e, dtype=float) for e in out.bin_edges]
+    bm = np.asarray(out.bin_mask)
+    ctxd = dict(channels=repr(args['channels']), f=args['gate_fraction'], sigma=args['sigma'], N=int(pre.shape[0]),
+                nbins=[len(xe) - 1, len(ye) - 1])
+    ok = bm.shape == (len(xe) - 1, len(ye) - 1) and bm.dtype == bool and mask.shape == (pre.shape[0],) \
+        and np.all(np.diff(xe) > 0) and np.all(np.diff(ye) > 0)
+    if not mon.chk(bool(ok), 'density2d:output-shapes', **ctxd):
+        return
+    ix, inx = bin_index(X[:, 0], xe)
+    iy, iny = bin_index(X[:, 1], ye)
+    ing = inx & iny
+    ixc, iyc = np.clip(ix, 0, len(xe) - 2), np.clip(iy, 0, len(ye) - 2)
+    # 1+2 atomicity, nothing outside the grid
+    exp = ing & bm[ixc, iyc]
+    mon.chk(np.array_equal(mask, exp), 'density2d:atomicity', n_diff=int(np.sum(mask != exp)),
+            kept_outside_grid=int(np.sum(mask & ~ing)), **ctxd)
+    gated_equals_masked(mon, pre, data, out.gated_data, mask, 'density2d')
+    if args['bin_mask'] is not None:
+        mon.chk(np.array_equal(bm, np.asarray(args['bin_mask'])), 'density2d:replay-bin-mask-changed', **ctxd)
+        return
+    H = np.zeros((len(xe) - 1, len(ye) - 1))
+    np.add.at(H, (ix[ing], iy[ing]), 1)
+    n_in = int(ing.sum())
+    kept = int(mask.sum())
+    f = args['gate_fraction']
+    t_exact = math.ceil(fractions.Fraction(f) * n_in)
+    t_float = int(math.ceil(f * float(n_in)))
+    targets = sorted(set([t_exact, t_float]))
+    if f == 0:
+        mon.chk(kept == 0, 'density2d:fraction0-keeps', kept=kept, **ctxd)
+        return
+    if f == 1:
+        mon.chk(kept == n_in, 'density2d:fraction1-drops', kept=kept, n_in=n_in, **ctxd)
+    if n_in == 0:
+        return
+    mon.chk(kept >= min(targets), 'density2d:too-few-kept', kept=kept, targets=targets, n_in=n_in, **ctxd)
+    S = scipy.ndimage.gaussian_filter(H, sigma=args['sigma'], order=0, mode='constant', cval=0.0, truncate=6.0)
+    Dn = S / S.sum()
+    if bm.any():
+        dmin = Dn[bm].min()
+        cand = bm & (Dn == dmin)
+        hc = H[cand]
+        ok = any(kept >= t and np.any(kept - hc < t) for t in targets)
+        mon.chk(bool(ok), 'density2d:not-minimal', kept=kept, targets=targets, least_dense_kept_counts=hc[:4].tolist(), **ctxd)
+        if (~bm).any():
+            mon.chk(bool(dmin >= Dn[~bm].max()), 'density2d:density-order', min_kept=float(dmin),
+                    max_dropped=float(Dn[~bm].max()), **ctxd)
+    else:
+        mon.chk(min(targets) == 0, 'density2d:too-few-kept', kept=0, targets=targets, **ctxd)
+
+
+# ------------------------------------------------------------------------------
+# C12: summary statistics
+# ------------------------------------------------------------------------------
+
+STATS = ('mean', 'gmean', 'median', 'mode', 'std', 'cv', 'gstd', 'gcv', 'iqr', 'rcv')
+
+
+def _attach_stats(self):
+    S = self.F.stats
+    for name in STATS:
+        self.rebind(S, name, (lambda nm: (lambda orig: _wrap_stat(self, orig, nm)))(name))
+
+
+Monitors.attach_stats = _attach_stats
+
+
+def _wrap_stat(mon, orig, name):
+    def stat(data, channels=None):
+        pre = snapshot(data) if isinstance(data, np.ndarray) else None
+        out = orig(data, channels)
+        if pre is not None:
+            try:
+                oracle_stat(mon, name, pre, data, channels, out)
+            except Exception as e:   # noqa
+                mon.ctx.note('oracle-error stats.%s: %s' % (name, core.exc_str(e)))
+                mon.ctx.counters['oracle_errors'] += 1
+        return out
+    return stat
+
+
+def _percentile(xs, q):
+    """linear-interpolation percentile of a sorted python list."""
+    n = len(xs)
+    h = (n - 1) * q / 100.0
+    lo = int(math.floor(h))
+    hi = min(lo + 1, n - 1)
+    return xs[lo] + (xs[hi] - xs[lo]) * (h - lo)
+
+
+def ref_stat(name, col):
+    """textbook definition on a python list of floats; returns float, or a set of floats for the mode."""
+    n = len(col)
+    if name == 'mean':
+        return math.fsum(col) / n
+    if name == 'median':
+        xs = sorted(col)
+        return xs[n // 2] if n % 2 else 0.5 * (xs[n // 2 - 1] + xs[n // 2])
+    if name == 'mode':
+        cnt = {}
+        for v in col:
+            cnt[v] = cnt.get(v, 0) + 1
+        mx = max(cnt.values())
+        return set(v for v, c in cnt.items() if c == mx)
+    if name == 'std':
+        m = math.fsum(col) / n
+        return math.sqrt(math.fsum((v - m) ** 2 for v in col) / n)
+    if name == 'cv':
+        return ref_stat('std', col) / ref_stat('mean', col)
+    if name == 'iqr':
+        xs = sorted(col)
+        return _percentile(xs, 75) - _percentile(xs, 25)
+    if name == 'rcv':
+        return ref_stat('iqr', col) / ref_stat('median', col)
+    lg = [math.log(v) for v in col]
+    if name == 'gmean':
+        return math.exp(math.fsum(lg) / n)
+    sd = ref_stat('std', lg)
+    if name == 'gstd':
+        return math.exp(sd)
+    if name == 'gcv':
+        return math.sqrt(math.exp(sd ** 2) - 1)
+    raise KeyError(name)
+
+
+def stat_tol(dtype):
+    return 2e-5 if (dtype.kind == 'f' and dtype.itemsize == 4) else 1e-6
+
+
+def oracle_stat(mon, name, pre, data, channels, out):
+    if pre.raw.size == 0:
+        mon.ctx.note('statistic of empty data (not judged)')
+        return
+    A = pre.f64
+    if data.ndim == 1:
+        if channels is not None:
+            mon.ctx.note('stats on 1-D data with channels (not judged)')
+            return
+        cols, scalar = [A], True
+    elif data.ndim == 2:
+        if channels is None:
+            pos, scalar = list(range(A.shape[1])), False
+        else:
+            pos, scalar = norm_channels(data, channels)
+        cols = [A[:, p] for p in pos]
+    else:
+        return
+    o = np.asarray(out)
+    want_shape = () if scalar else (len(cols),)
+    if not mon.chk(o.shape == want_shape, 'stats:result-shape:' + name, stat=name, got=list(o.shape), want=list(want_shape),
+                   channels=repr(channels), ndim=int(data.ndim)):
+        return
+    vals = [float(o)] if scalar else [float(v) for v in o]
+    tol = stat_tol(pre.dtype)
+    for col, got in zip(cols, vals):
+        lst = col.tolist()
+        if not all(math.isfinite(v) for v in lst):
+            mon.ctx.note('statistic of non-finite data (not judged)')
+            continue
+        if name in ('gmean', 'gstd', 'gcv') and min(lst) <= 0:
+            mon.ctx.note('geometric statistic of non-positive data (not judged)')
+            continue
+        scale = max(abs(v) for v in lst)
+        try:
+            exp = ref_stat(name, lst)
+        except ZeroDivisionError:
+            mon.ctx.note('statistic with zero denominator (not judged)')
+            continue
+        if name == 'mode':
+            mon.chk(got in exp, 'stats:definition:' + name, stat=name, got=got, want=sorted(exp)[:5], dtype=str(pre.dtype))
+            continue
+        if name in ('cv', 'rcv'):
+            den = ref_stat('mean' if name == 'cv' else 'median', lst)
+            if abs(den) < 1e-3 * scale:
+                mon.ctx.note('ratio statistic with near-zero denominator (not judged)')
+                continue
+        atol = tol * scale if name in ('mean', 'median', 'std', 'iqr') else tol * 1e-3
+        ok = abs(got - exp) <= tol * abs(exp) + atol
+        mon.chk(ok, 'stats:definition:' + name, stat=name, got=got, want=exp, rel=abs(got - exp) / max(abs(exp), 1e-300),
+                dtype=str(pre.dtype), n=len(lst), container='sample' if pre.sample else 'array')
+    input_unchanged(mon, pre, data, 'stats')
